@@ -52,7 +52,7 @@ TRUSTED_BASE = [
 ASSUMPTIONS = [
     "setup_object returns a fresh object at every successful call (a setup_object that returns the same object twice shares it itself)",
     "teardown_factory is called after every get_object call has completed (runner: on-completion dependencies of the suite/session "
-    "teardown task; the interrupt path D11 is C08's finding and is not exercised here)",
+    "teardown task — honoured after a keyboard interrupt too since fix D11, C08's theorems; the interrupt path is not exercised here)",
     "the tree under test contains /repo commit 8e1157b (teardown_factory continues after a raising teardown_object); on an older "
     "tree the check reports a VIOLATION with signature C15/teardown-raises-skips-remaining-instances",
     "worker threads of one run are alive for the whole run, so thread identifiers are not reused inside a run",
